@@ -611,7 +611,7 @@ def rebind(msg: bytes, suite_name: str, psk: bytes) -> bytes:
 
 B_CERT_CASES = ["wrong-name", "expired", "not-yet", "self-signed", "untrusted-ca",
                 "untrusted-ca+root-in-chain", "untrusted-inter+root-in-chain", "untrusted-inter-in-chain"]
-B_SIG_CASES = ["cv-wrong-key", "cv-wrong-context", "cv-wrong-transcript"]
+B_SIG_CASES = ["cv-wrong-key", "cv-wrong-context", "cv-wrong-transcript", "empty-certificate-list-no-certificate-verify"]
 B_PSK_CASES = ["psk-impostor-server", "psk-client-secret-unknown-to-server", "psk-unknown-ticket-then-bad-cert",
                "psk-claimed-without-secret:AES_128_GCM_SHA256", "psk-claimed-without-secret:AES_256_GCM_SHA384", "psk-claimed-without-secret:CHACHA20_POLY1305_SHA256"]
 
@@ -642,6 +642,21 @@ def b_run(case: str, kind: str, res, batch):
         suite_name = tls.CipherSuite(store.client[0].cipher_suite).name
     if case == "cv-wrong-key":
         sv.ctx.certificate_private_key = P.key(kind, slot=1)
+    elif case == "empty-certificate-list-no-certificate-verify":
+        # an impostor without any certificate key: Certificate with an empty list, no CertificateVerify, and a Finished
+        # computed over exactly that transcript (legal only for a *client* answering a CertificateRequest)
+        orig_hello = sv.ctx._server_handle_hello
+
+        def impostor_hello(*a, _orig=orig_hello):
+            pc, pcv = tls.push_certificate, tls.push_certificate_verify
+            tls.push_certificate = lambda buf, cert: pc(buf, tls.Certificate(request_context=cert.request_context, certificates=[]))
+            tls.push_certificate_verify = lambda buf, verify: None
+            try:
+                return _orig(*a)
+            finally:
+                tls.push_certificate, tls.push_certificate_verify = pc, pcv
+
+        sv.ctx._server_handle_hello = impostor_hello
     elif case == "cv-wrong-context":
         _use_proxy(sv.ctx, _wrong_context)
     elif case == "cv-wrong-transcript":
